@@ -14,6 +14,8 @@ def main(pid, tier, repo=None):
         taintalloc.run(ctx, LIB_CRATES)
         block.run_block(ctx, LIB_CRATES)
         block.run_eof_bitstream(ctx)
+        from . import c09
+        c09.rule_init_offsets(ctx)
         # the one place a decode call can block: the render-handle wait (shared with C08/C20)
         from . import proto
         infos = proto.scan_all(ctx)
